@@ -112,3 +112,38 @@ def shrink_candidates(c):
             e["queries"] = [q]
             out.append(e)
     return out
+
+
+def extra_phase(ctx):
+    """document ids at the 28-bit key capacity: ids below 2^28 must be encoded exactly (term frequency reported for the
+    right id), a batch that needs an id of 2^28 or more must be rejected with ValueError (it used to alias row id - 2^28).
+    Driven through the batch worker, because 2^28 rows cannot be indexed within the time budget.  Implementation-only."""
+    import random
+    from harness import common as C
+    out = ctx["out"]
+    rng = random.Random(repr((ctx["seed"], "c01-rows")))
+    cases = []
+    for _ in range(12):
+        docs = [[rng.randrange(3) for _ in range(rng.randint(0, 6))] for _ in range(rng.randint(1, 5))]
+        if not any(docs):
+            docs[0] = [0, 1]
+        beg = (1 << 28) - len(docs) - rng.choice([0, 0, 1, 5]) if rng.random() < 0.5 else (1 << 28) - rng.randint(0, len(docs) - 1)
+        cases.append({"docs": docs, "beg": beg})
+    res = C.run_impl("harness.props.c01_rows", cases, ctx["scratch"], timeout=600)
+    bad = 0
+    for c, r in zip(cases, res):
+        over = c["beg"] + len(c["docs"]) - 1 >= (1 << 28)
+        if over:
+            ok = isinstance(r, dict) and r.get("exc") == "ValueError"
+        else:
+            exp = {}
+            for i, d in enumerate(c["docs"]):
+                for t in d:
+                    exp.setdefault(str(t), {}).setdefault(c["beg"] + i, 0)
+                    exp[str(t)][c["beg"] + i] += 1
+            ok = isinstance(r, dict) and "tf" in r and all(
+                sorted([k, float(v)] for k, v in exp[t].items()) == sorted(r["tf"].get(t, [])) for t in exp)
+        if not ok:
+            bad += 1
+            out.violations.append((c, r, None, None, "document ids at the key capacity: wrong row or no rejection"))
+    return {"row_limit_cases": len(cases), "row_limit_failures": bad}
